@@ -245,6 +245,11 @@ PATHS = {
     "dict-value": "{%% set d = {'f': c.%(m)s} %%}{{ d.f(%(a)s) }}",
     "call-block": "{%% macro w() %%}{{ caller() }}{%% endmacro %%}{%% call w() %%}{{ c.%(m)s(%(a)s) }}{%% endcall %%}",
     "do-statement": "{%% do c.%(m)s(%(a)s) %%}",
+    # the method NAME comes from the data as an instance of a str subclass that lies about startswith / == / hash
+    "attr-filter-lying-name": "{{ (c|attr(nm0))(%(a)s) }}",
+    "attr-filter-lying-eq-name": "{{ (c|attr(nm1))(%(a)s) }}",
+    "subscript-lying-eq-name": "{{ c[nm1](%(a)s) }}",
+    "map-attr-lying-name": "{%% for f in [c]|map('attr', nm1) %%}{{ f(%(a)s) }}{%% endfor %%}",
     # the hand-out itself, without calling: a defined value makes the template touch an undefined name
     "handout-defined": "{%% if c.%(m)s is defined %%}{{ missing_zz.handed_out() }}{%% endif %%}{%% set unused = [%(a)s] %%}",
     "handout-defined-item": "{%% if c['%(m)s'] is defined %%}{{ missing_zz.handed_out() }}{%% endif %%}{%% set unused = [%(a)s] %%}",
@@ -265,7 +270,7 @@ PATHS = {
     "host-ref-macro": "{%% macro call(g) %%}{{ g(%(a)s) }}{%% endmacro %%}{{ call(hmd['f']) }}",
 }
 # the async immutable sandbox runs every path in the thorough tier and this core set in the quick tier
-ASYNC_QUICK_PATHS = ("handout-defined", "dot", "subscript", "attr-filter", "map-attribute", "set-alias", "deep-dot", "deep-map-dotted", "host-ref",
+ASYNC_QUICK_PATHS = ("attr-filter-lying-eq-name", "handout-defined", "dot", "subscript", "attr-filter", "map-attribute", "set-alias", "deep-dot", "deep-map-dotted", "host-ref",
                      "host-ref-dict", "format-attr", "format-deep")
 HOST_REF_PATHS = ("host-ref", "host-ref-dict", "host-ref-list", "host-ref-alias", "host-ref-loop", "host-ref-macro")
 FORMAT_PATHS = {
@@ -345,6 +350,9 @@ def method_data(T, variant, args, m=None):
     data = {"c": c, "o": {"inner": inner}, "b": Box(inner=binner),
             "deep": Box(data={"inner": Box(c=fresh(T, variant))}),
             "rows": [{"cell": fresh(T, variant)}, {"cell": fresh(T, variant)}]}
+    if m is not None:
+        from . import sbx_objects as _ob
+        data["nm0"], data["nm1"] = _ob.LyingStartswith(m), _ob.LyingEq(m)
     hm = getattr(c, m, None) if m is not None else None
     if callable(hm):
         data.update({"hm": hm, "hmd": {"f": hm}, "hml": [hm]})
@@ -469,6 +477,16 @@ EXTRA_NAMES = set()
 # statement-level templates (not expressible as one expression): namespaces built from context containers and then
 # assigned to, rebinding of names that alias containers, loops that assign, blocks
 STATEMENT_TEMPLATES = [
+    # attribute-style assignment targets (NSRef) on things that are NOT namespaces, in both set forms, tuple targets,
+    # loop bodies, macros: only a namespace() object may be written this way
+    "{% set d.x = 1 %}", "{% set d.x %}foo{% endset %}", "{% set d.a %}{{ l|join }}{% endset %}",
+    "{% set o = nest.data.by %}{% set o.k %}1{% endset %}", "{% set o = nest.data.by %}{% set o.k = 2 %}",
+    "{% set d.x | upper %}foo{% endset %}", "{% set q.x %}1{% endset %}", "{% set nest.data %}gone{% endset %}",
+    "{% set lb0 = lb[0] %}{% set lb0.k %}x{% endset %}", "{% set lb0 = lb[0] %}{% set lb0.k = [] %}",
+    "{% set d.x, d.y = 1, 2 %}", "{% set a, d.x = 1, 2 %}",
+    "{% for k in [1] %}{% set d.x %}{{ k }}{% endset %}{% endfor %}",
+    "{% macro m(t) %}{% set t.x %}1{% endset %}{% endmacro %}{{ m(d) }}",
+    "{% set ns = namespace() %}{% set ns.ok %}fine{% endset %}{% set ns.v = l %}{{ ns.ok }}",
     "{% set ns = namespace(d) %}{% set ns.z = 1 %}{{ ns.z }}",
     "{% set ns = namespace(d, extra=1) %}{{ ns.extra }}",
     "{% set ns = namespace(nest.data.by) %}{% set ns.k = 0 %}{% set ns.new = l %}",
@@ -593,6 +611,8 @@ def run(ctx):
     # T5: the current source of modifies_known_mutable, is_internal_attribute and both
     # is_safe_attribute methods, interpreted in Coq, equals the model functions for every argument
     sbx_src_tie.source_equations(ctx, ("mkm", "imm", "immcall"))
+    # regenerated compiler facts: routing table and "assignment targets are namespace-guarded" (both set forms)
+    sbx_src_tie.routing_table(ctx)
     lap("source_equations")
     facts, flagged = regenerate(ctx)
     lap("regenerated_tables")
@@ -673,6 +693,8 @@ def run(ctx):
                 # a host-supplied bound method never passes through attribute access: the immutable call gate
                 # decides, by modifies_known_mutable(method.__self__, method.__name__)
                 predicted = (not bits["mkm"] if path in HOST_REF_PATHS else bits["safe"]) if bits else None
+                if "lying" in path:
+                    predicted = None      # a lying name may also simply not be found (plain undefined): judged by the oracle only
                 ok = judge_method_case(ctx, envs, case, predicted,
                                        exists=hasattr(PY_OF[T], m) and callable(getattr(PY_OF[T], m, None)))
                 ctx.case(sample=case if nontriv and path == "map-attribute" else None,
@@ -727,6 +749,20 @@ def run(ctx):
             reject_once(ctx, case, f"the template {src!r} ({mode} immutable sandbox) modified the context data", f"C19:statements:{src[:40]}")
         else:
             ctx.validated()
+        if mode == "sync":
+            # generated code: every subscript STORE on a template value is preceded by the "is a Namespace" guard
+            from . import sbx_codegen
+            try:
+                problems = sbx_codegen.unguarded_stores(envs[mode].compile(src, raw=True))
+            except Exception:  # noqa: BLE001 - not a template: nothing to scan
+                problems = []
+            ctx.case()
+            ctx.count("statement_store_scan")
+            if problems:
+                reject_once(ctx, dict(case, problems=problems[:3]), f"the code generated for {src!r} stores into a template value without "
+                                                                    f"the namespace guard: {problems[0]}", "C19:codegen:unguarded-store")
+            else:
+                ctx.validated()
     lap("filter_stream")
     ctx.extra["filters_exercised"] = len({n for n, _ in exprs})
     ctx.extra["filter_expressions"] = len(exprs)
